@@ -6,6 +6,8 @@ from /repo on every run) are the hand-written model's.  Obligations added to `./
 -/
 import Flipdot.Generated.Core
 import Flipdot.Lemmas.Bytes
+import Flipdot.Props.C01
+import Flipdot.Props.C06
 set_option linter.unusedSimpArgs false
 namespace Flipdot.Tie.Core
 open Flipdot
@@ -192,5 +194,51 @@ theorem fromCaptures_eq (len ah al ty ck : UInt8) (data : List UInt8) :
         | (by_cases hc : lrc (Flipdot.payload ⟨ah.toUInt16 * 256 + al.toUInt16, ty, d⟩) = ck <;> simp [hc])
   · simp [hl]
 
+
+/-! ### C01, C06 and C07 stated of the source text
+
+With the equalities above, the property theorems about the model are theorems about the functions compiled from
+libs/core/src/frame.rs and libs/core/src/page.rs as they are today. -/
+
+/-- C01: what `to_bytes` (as written in the source) produces decodes back to the frame, for every frame whose data
+    block `Data::try_new` admits. -/
+theorem src_dec_toBytes (f : Frame) (h : f.WF) : ∃ bs, GF.toBytes f = .ok bs ∧ dec bs = .ok f :=
+  ⟨enc f, toBytes_eq f, C01.dec_enc f h⟩
+
+theorem src_dec_toBytesWithNewline (f : Frame) (h : f.WF) :
+    ∃ bs, GF.toBytesWithNewline f = .ok bs ∧ dec bs = .ok f :=
+  ⟨encNL f, toBytesWithNewline_eq f, C01.dec_encNL f h⟩
+
+/-- C01: the source's encoder never panics, and its output has the documented length. -/
+theorem src_toBytes_length (f : Frame) : ∃ bs, GF.toBytes f = .ok bs ∧ bs.length = 1 + 2 * (f.data.length + 5) :=
+  ⟨enc f, toBytes_eq f, C01.enc_length f⟩
+
+/-- C06: out-of-bounds coordinates panic in the source's accessors, in-bounds ones never do (on a well-formed page). -/
+theorem src_oob_panics (p : Page) (x y : Nat) (v : Bool) (h : x ≥ p.w ∨ y ≥ p.h) :
+    GP.getPixel p x y = .error .oob ∧ GP.setPixel p x y v = .error .oob := by
+  rw [getPixel_eq, setPixel_eq]; exact C06.oob_panics p x y v h
+
+theorem src_inb_no_panic (p : Page) (hp : p.WF) (x y : Nat) (v : Bool) (hx : x < p.w) (hy : y < p.h) :
+    (∃ b, GP.getPixel p x y = .ok b) ∧ (∃ p', GP.setPixel p x y v = .ok p') := by
+  rw [getPixel_eq, setPixel_eq]; exact C06.inb_no_panic p hp x y v hx hy
+
+/-- C06: `set_pixel` then `get_pixel` of the same pixel reads the value back; every other pixel is unchanged. -/
+theorem src_get_set_same (p p' : Page) (hp : p.WF) (x y : Nat) (v : Bool)
+    (h : GP.setPixel p x y v = .ok p') : GP.getPixel p' x y = .ok v := by
+  rw [setPixel_eq] at h; rw [getPixel_eq]; exact C06.get_set_same p p' hp x y v h
+
+theorem src_get_set_other (p p' : Page) (hp : p.WF) (x y x' y' : Nat) (v : Bool)
+    (hx' : x' < p.w) (hy' : y' < p.h) (hne : (x', y') ≠ (x, y))
+    (h : GP.setPixel p x y v = .ok p') : GP.getPixel p' x' y' = GP.getPixel p x' y' := by
+  rw [setPixel_eq] at h; rw [getPixel_eq, getPixel_eq]; exact C06.get_set_other p p' hp x y x' y' v hx' hy' hne h
+
+/-- C07: the byte and bit a pixel lives in, as computed by the source's `byte_bit_indices`, for every page size
+    (no bound on width or height: the arithmetic is in `usize`, modelled as `Nat`). -/
+theorem src_pixel_position (p : Page) (x y : Nat) (hx : x < p.w) (hy : y < p.h) :
+    GP.byteBitIndices p x y = .ok (4 + x * bpc p.h + y / 8, y % 8) := by
+  rw [byteBitIndices_eq]
+  unfold Page.indices
+  have : ¬ (x ≥ p.w ∨ y ≥ p.h) := by omega
+  simp [this]
 
 end Flipdot.Tie.Core
